@@ -37,7 +37,13 @@ const _: () = {
             if !self.output.is_empty() {
                 self.output.push('&');
             }
-            key.serialize(&mut **self)
+            let len = self.output.len();
+            key.serialize(&mut **self)?;
+            /* `=value` is refused by the deserializer ( and by everything else reading the format ) */
+            if self.output.len() == len {
+                return Err(serde::ser::Error::custom("ohkami's builtin urlencoded serializer doesn't support empty keys !"))
+            }
+            Ok(())
         }
         fn serialize_value<T: ?Sized>(&mut self, value: &T) -> Result<(), Self::Error>
         where T: serde::Serialize {
